@@ -12,7 +12,7 @@ use vh::Ctx;
 pub fn cases(quick: bool) -> Vec<Case> {
     let mut v = Vec::new();
     let mut idx = 0u64;
-    let reps = if quick { 10 } else { 200 };
+    let reps = if quick { 40 } else { 200 };
     for _ in 0..reps {
         for ver in ["V1", "V2", "V3", "V4"] {
             // totals outside 16..99: the header-layout ambiguity of small V2 manifests is judged by the root family
